@@ -56,10 +56,11 @@ Definition sched_reformed : list ychoice :=
 (* (v) one retriable answer, no connection failure, no error event at all.  [1] is answered NotLeaderForPartition
    (nothing appended) and re-sent whole by retryBatch; message 2 is bounced by the broker worker (the partition is
    marked as retrying) and opens retry level 1 at the partition worker; while the fin marker is on its way back
-   the fresh message 3 is parked in the level-0 backlog; flushRetryBuffers forwards the backlog WITHOUT sequence
-   numbers (only the main path of partitionProducer.dispatch stamps): message 3 travels as (epoch 0, sequence 0),
-   the broker takes [3] for the cached batch [1] and answers Ok with its base offset: message 3 is reported
-   successful and is not in the log. *)
+   the fresh message 3 is parked in the level-0 backlog.  PINNED TREE (before /repo 271dd24): flushRetryBuffers
+   forwarded the backlog WITHOUT sequence numbers, message 3 travelled as (epoch 0, sequence 0), the broker took
+   [3] for the cached batch [1] and answered Ok: reported successful, not in the log (replayed on the real code and
+   on the then model: the four requests (0,0,[1]) (0,0,[1]) (0,1,[2]) (0,0,[3]), last verdict "duplicate").
+   REPAIRED: the flush stamps it; see ProofsWitness.backlog_repaired. *)
 Definition sched_backlog : list ychoice :=
   [C (CSubmit (wmsg 1 0)); C CDisp; C (CTp 0); C (CPp 0 0 [LOk 1]); C (CBpRecv 0); C (CBpRecv 0);
    C (CBpFlush 0); C (CBridge 0); YDeliver 0 (RAnswer [PErrBefore 6]); C (CBpResp 0);
